@@ -438,8 +438,8 @@ KINDS = ["lru_fn", "lru_keyfn", "lru_method", "per_instance", "lazy"]
 
 
 def plan(tier, seed, build, scale):
-    n = int((2500 if tier == "quick" else 40000) * scale)
-    per = max(1, n // (8 if tier == "quick" else 32))
+    n = int((2500 if tier == "quick" else 250000) * scale)
+    per = max(1, n // (8 if tier == "quick" else 64))
     units = []
     a = 0
     while a < n:
